@@ -60,7 +60,8 @@ def _inst_zeros(app):
 
 
 def _inst_decimal(app):
-    return [z3.Length(app) >= 1]
+    n = app.arg(0)
+    return [z3.Length(app) >= 1, z3.Implies(z3.And(n >= 0, n < TWO32), z3.Length(app) <= 10)]
 
 
 def _inst_catD(app):
